@@ -14,6 +14,9 @@ pub struct Case {
     /// the pair is dropped after this many ticks (selector over the tick list; the rest never runs)
     pub drop_after: u16,
     pub run_tail: bool,
+    /// when present, a World script (real Server and Clients) is executed and torn down instead
+    #[serde(default)]
+    pub world: Option<crate::sim::script::WCase>,
 }
 
 pub struct C19;
@@ -29,6 +32,14 @@ struct Outcome {
 }
 
 fn exercise(case: &Case) -> Outcome {
+    if let Some(wc) = &case.world {
+        // Server, Clients, their connections and everything in flight are dropped at the end of this scope
+        let log = crate::sim::script::run_script(wc);
+        let deliveries = log.world.server_events.iter().filter(|e| matches!(e.2, crate::sim::world::SEv::Receive(..))).count() + log.world.clients.iter().map(|c| c.events.iter().filter(|e| matches!(e.2, crate::sim::world::CEv::Receive(_))).count()).sum::<usize>();
+        let in_flight = log.world.in_flight_count() > 0 || log.world.clients.iter().any(|c| c.client.as_ref().map_or(false, |cl| cl.is_active()));
+        drop(log);
+        return Outcome { multi_frag_odd_delivered: false, dropped_in_flight: in_flight, deliveries };
+    }
     let sc = &case.sc;
     let mut sim = SimPair::new(sc);
     let n = pick_index(case.drop_after, sc.ticks.len() + 1);
@@ -55,7 +66,16 @@ impl Check for C19 {
 
     fn strategy(&self, tier: Tier) -> BoxedStrategy<Case> {
         let p = GenParams { max_ticks: tier.pick(120, 300), max_sends: 4, max_frags: tier.pick(6, 16), tail: true, modes: [1, 2, 2, 3], ..GenParams::default() };
-        (scenario_strategy(&p), prop_oneof![2 => Just(u16::MAX), 3 => any::<u16>()], any::<bool>()).prop_map(|(sc, drop_after, run_tail)| Case { sc, drop_after, run_tail }).boxed()
+        let pair = (scenario_strategy(&p), prop_oneof![2 => Just(u16::MAX), 3 => any::<u16>()], any::<bool>()).prop_map(|(sc, drop_after, run_tail)| Case { sc, drop_after, run_tail, world: None });
+        // Client / Server teardown: World scripts with a short settle phase, so that endpoints are dropped while
+        // connections are pending, active (data in flight), closing or lingering
+        let sp = crate::sim::script::ScriptParams { max_clients: tier.pick(3, 6), max_ops: tier.pick(80, 250), faults: true, disconnect_weight: 2, drop_weight: 1, send_weight: 10, timeouts: vec![3000, 20000], big_jumps: false, settle_us: 0 };
+        let q = GenParams { max_ticks: 1, max_sends: 1, faults: false, tail: false, max_fates: 1, ..GenParams::default() };
+        let world = (scenario_strategy(&q), crate::sim::script::wcase_strategy(&sp), prop_oneof![Just(0u64), Just(300_000u64), Just(3_000_000u64), Just(25_000_000u64)]).prop_map(|(sc, mut wc, settle)| {
+            wc.settle_us = settle;
+            Case { sc, drop_after: 0, run_tail: false, world: Some(wc) }
+        });
+        prop_oneof![2 => pair, 1 => world].boxed()
     }
 
     fn cases(&self, tier: Tier) -> u64 {
@@ -63,7 +83,7 @@ impl Check for C19 {
     }
 
     fn rule(&self) -> String {
-        "case = SimPair scenario (multi-fragment sizes biased to k*1448+-1 and arbitrary non-multiples, all modes, faults, small windows so that the receive window advances over partial packets) executed under the checking allocator, with the whole pair dropped after a generated number of ticks (mid-transfer) or after a fair tail. Oracle: the allocator recorded no dealloc / realloc whose size or alignment differs from the one the block was allocated with, and the thread's live-byte count after everything created by the case has been dropped equals the count on entry (one warm-up execution per worker first). Non-trivial = a multi-fragment packet whose length is not a multiple of 1448 completed reassembly and was delivered, or the pair was dropped with data in flight. Distinct = distinct serialised case.".into()
+        "case = SimPair scenario (multi-fragment sizes biased to k*1448+-1 and arbitrary non-multiples, all modes, faults, small windows so that the receive window advances over partial packets) executed under the checking allocator, with the whole pair dropped after a generated number of ticks (mid-transfer) or after a fair tail. A second case kind runs a World script (real Server and 1-3 Clients: sends of all sizes in both directions, disconnects, Server::drop, faults) and drops Server, Clients and everything in flight after 0 / 0.3 / 3 / 25 s of settling. Oracle: the allocator recorded no dealloc / realloc whose size or alignment differs from the one the block was allocated with, and the thread's live-byte count after everything created by the case has been dropped equals the count on entry (one warm-up execution per worker first). Non-trivial = a multi-fragment packet whose length is not a multiple of 1448 completed reassembly and was delivered, or the pair was dropped with data in flight. Distinct = distinct serialised case.".into()
     }
 
     fn assumptions(&self) -> Vec<String> {
@@ -110,6 +130,9 @@ impl Check for C19 {
         }
         if out.deliveries > 0 {
             classes.push("delivered_something");
+        }
+        if case.world.is_some() {
+            classes.push("world_teardown");
         }
         CaseResult::ok(out.multi_frag_odd_delivered || out.dropped_in_flight, classes)
     }
